@@ -70,9 +70,13 @@ def Opts.safe (o : Opts) : Bool :=
 /-- `context.enter('|', options=Options(no_data_loss=True, no_explicit_cast=True))` (rule.py:392-394):
 `self.options & options` keeps the caller's policies, overrides the two flags and — because the fresh `Options`
 normalised its own `addition` to `False` — the addition -/
-def Opts.strict (o : Opts) : Opts := { o with nec := true, ndl := true, addition := .forbid }
+def Opts.strict (o : Opts) : Opts :=
+  { o with nec := true, ndl := true, addition := .forbid,
+           -- e7d1ed5: the trial stages run with the three policies at 'throw' (rule.py:398-402)
+           invalidItems := .throw, invalidKeys := .throw, invalidValues := .throw }
 /-- `Options(no_data_loss=True)` (rule.py:408) -/
-def Opts.noLoss (o : Opts) : Opts := { o with ndl := true, addition := .forbid }
+def Opts.noLoss (o : Opts) : Opts :=
+  { o with ndl := true, addition := .forbid, invalidItems := .throw, invalidKeys := .throw, invalidValues := .throw }
 
 /-! ## declared types -/
 
